@@ -877,7 +877,7 @@ func (in *minInst) build() *minRun {
 	case 3:
 		// (knob 3: a bounded step interval; a search that ends at a bound
 		// fails with ErrLinesearcherBound / ErrLinesearcherFailure, as documented)
-		ls = &optimize.MoreThuente{DecreaseFactor: []float64{0, 0.3, 0.05, 0}[in.lsKnob], CurvatureFactor: []float64{0, 0.5, 0.1, 0}[in.lsKnob],
+		ls = &optimize.MoreThuente{DecreaseFactor: []float64{0, 0.3, 0.05, 0.3}[in.lsKnob], CurvatureFactor: []float64{0, 0.5, 0.1, 0.5}[in.lsKnob],
 			MinimumStep: []float64{0, 0, 0, 1.0 / 256}[in.lsKnob], MaximumStep: []float64{0, 0, 0, 0.75}[in.lsKnob]}
 	}
 	// tuning knobs: correctness must not depend on one configuration
